@@ -66,7 +66,9 @@ def cases(rng, tier):
         gl = "".join(rng.choice("IIXYZ") for _ in range(n))
         members = [{"l": "".join(rng.choice([g, "I"]) for g in gl), "p": 0} for _ in range(rng.randint(1, 4))]
         prep = gen.rand_instrs(rng, n, rng.randint(0, 6), barriers=False, families="integer")
-        yield ("measure", {"n": n, "general": gl, "members": members, "prep": prep, "wrong_width": rng.random() < 0.05})
+        yield ("measure", {"n": n, "general": gl, "members": members, "prep": prep, "wrong_width": rng.random() < 0.05,
+                           # classical registers that exist before the observable register is appended
+                           "cregs": rng.choice([[], [], [["qpd_measurements", 2]], [["flag", 1]], [["a", 1], ["b", 3]]])})
 
 
 def _wide_cases(rng, tier):
@@ -106,7 +108,7 @@ def model_line(kind, payload):
         lookup = [[_ps(p), [[int(a), int(b)] for a, b in locs]] for p, locs in oc.lookup.items()]
         return {"op": "c11.check_collection", "obs": payload["obs"], "groups": groups, "lookup": lookup}
     n = payload["n"] + (1 if payload["wrong_width"] else 0)
-    qc = canon.build_circuit({"nq": n, "instrs": payload["prep"]})
+    qc = canon.build_circuit({"nq": n, "instrs": payload["prep"], "cregs": payload.get("cregs", [])})
     cog = _cog(payload)
     return {"op": "c11.append_measurement", "circuit": canon.canon_circuit(qc), "general": {"l": payload["general"], "p": 0},
             "indices": [int(i) for i in cog.pauli_indices]}
@@ -128,7 +130,7 @@ def run_real(kind, payload):
         _collection(payload)
         return {"ok": {"valid": True, "general_recomputed": True}}
     n = payload["n"] + (1 if payload["wrong_width"] else 0)
-    qc = canon.build_circuit({"nq": n, "instrs": payload["prep"]})
+    qc = canon.build_circuit({"nq": n, "instrs": payload["prep"], "cregs": payload.get("cregs", [])})
     cog = _cog(payload)
     before_qc = canon.canon_circuit(qc)
     q2 = _append_measurement_register(qc, cog)
@@ -174,24 +176,35 @@ def nontrivial_key(kind, payload):
     return hash(json.dumps([kind, payload], sort_keys=True))
 
 
-def _decode(qc_meas, cog, members):
-    """Exact outcome distribution of the measurement circuit, decoded by mask parity."""
+def _decode(qc_meas, cog, members, base=0):
+    """Exact outcome distribution of the measurement circuit, decoded by mask parity.  `base` = number of classical bits in front of
+    the observable register (registers that existed before; nothing is written to them here)."""
     from ..oracles import sem
     from qiskit_addon_cutting.cutting_reconstruction import _process_outcome, _process_outcome_v2
     br = sem.simulate(qc_meas)
     vals = [0.0] * len(members)
     v1 = np.zeros(len(members))
     v2 = np.zeros(len(members))
-    for k, rho in br.items():
+    nb = max(1, len(cog.pauli_indices))
+    vs = np.zeros(len(members))   # decoded from Counts-style string keys "<qpd bits> <observable bits>"
+    for k0, rho in br.items():
         p = float(np.real(np.trace(rho)))
+        if k0 & ((1 << base) - 1):
+            return [float("nan")] * len(members)   # a measurement was written into a register that existed before
+        k = k0 >> base
+        # a one-bit QPD register on top: "0 ..." leaves the sign, "1 ..." flips it; also hexadecimal and unspaced binary keys
+        obits = format(k, "b").zfill(nb)
+        for key, sign in (("0 " + obits, 1), ("1 " + obits, -1), ("10 " + obits, -1), (hex(k), 1), (obits, 1)):
+            vs += p * sign * np.asarray(_process_outcome(cog, key), dtype=float) / 5.0
         for mi, mask in enumerate(cog.pauli_bitmasks):
             vals[mi] += p * (-1) ** bin(k & mask).count("1")
         # the package's own decoders (no QPD bits set here): joint-integer form and two-register form
         v1 += p * np.asarray(_process_outcome(cog, k), dtype=float)
         v2 += p * np.asarray(_process_outcome_v2(cog, k, 0), dtype=float)
-    if not (np.allclose(v1, vals, atol=1e-12) and np.allclose(v2, vals, atol=1e-12)):
+    if not (np.allclose(v1, vals, atol=1e-12) and np.allclose(v2, vals, atol=1e-12) and np.allclose(vs, vals, atol=1e-12)):
         # report through the return value: the caller compares with the true expectations
-        return [float(x) for x in (v1 if not np.allclose(v1, vals, atol=1e-12) else v2)]
+        bad = v1 if not np.allclose(v1, vals, atol=1e-12) else (v2 if not np.allclose(v2, vals, atol=1e-12) else vs)
+        return [float(x) for x in bad]
     return vals
 
 
@@ -253,13 +266,13 @@ def oracle(kind, payload):
     if isinstance(real.get("ok"), dict) and "input_mutated" in real["ok"]:
         return "_append_measurement_circuit(inplace=False): " + real["ok"]["input_mutated"]
     cog = _cog(payload)
-    qc = canon.build_circuit({"nq": payload["n"], "instrs": payload["prep"]})
+    qc = canon.build_circuit({"nq": payload["n"], "instrs": payload["prep"], "cregs": payload.get("cregs", [])})
     true = sem.expectations(qc, [m["l"] for m in payload["members"]])
     try:
         qm = _append_measurement_circuit(_append_measurement_register(qc, cog), cog)
     except Exception as ex:
         return f"appending measurements raised {type(ex).__name__}: {ex}"
-    dec = _decode(qm, cog, payload["members"])
+    dec = _decode(qm, cog, payload["members"], base=sum(w for _, w in payload.get("cregs", [])))
     if not np.allclose(true, dec, atol=1e-9):
         return f"decoded {dec} but true expectations are {true}"
     return None
